@@ -79,14 +79,15 @@ def run_check(pid, tier, seed):
             new.append(((fn, clause), unmatched))
     for f, n in seen_known.values():
         known_lines.append('KNOWN-FINDING: property={} {} [{}; {}; {}]'.format(pid, f.get('what', ''), f.get('function'), f.get('clause'), f.get('input_class', 'any')))
-    os.makedirs(os.path.join(ROOT, 'evidence', 'replays'), exist_ok=True)
+    rdir = os.path.join(ROOT, 'evidence', 'replays') if not os.environ.get('VERIF_NOEVIDENCE') else os.path.join('/tmp', 'gv_replays_%d' % os.getpid())
+    os.makedirs(rdir, exist_ok=True)
     # stale replays of this property are removed so that a reader never confuses runs
-    for fn_ in os.listdir(os.path.join(ROOT, 'evidence', 'replays')):
+    for fn_ in os.listdir(rdir):
         if fn_.startswith(pid + '-'):
-            os.unlink(os.path.join(ROOT, 'evidence', 'replays', fn_))
+            os.unlink(os.path.join(rdir, fn_))
     vlines = []
     for k, ((fn, clause), recs) in enumerate(new):
-        path = os.path.join(ROOT, 'evidence', 'replays', '{}-{}.json'.format(pid, k))
+        path = os.path.join(rdir, '{}-{}.json'.format(pid, k))
         with open(path, 'w') as f:
             json.dump({'property': pid, 'tier': tier, 'seed': seed, 'function': fn, 'clause': clause, 'records': recs}, f, indent=1, ensure_ascii=False)
         vlines.append('VIOLATION property={} replay={}'.format(pid, path))
@@ -95,7 +96,8 @@ def run_check(pid, tier, seed):
     extra = {'distinct_violation_kinds': len(new), 'violating_executions': acc.nviol,
              'unconfirmed_timeouts_dropped': dropped,
              'slowest_tasks': [[round(t, 1), n, str(p)[:80]] for t, n, p in getattr(acc, 'timings', [])]}
-    path = evidence.write(pid, tier, seed, acc, spec, wall, known_lines, len(new), extra)
+    if not os.environ.get('VERIF_NOEVIDENCE'):
+        path = evidence.write(pid, tier, seed, acc, spec, wall, known_lines, len(new), extra)
     print('{} {} seed={}: states={} transitions={} evaluations={} nontrivial={} validated={} violations={} wall={:.1f}s'.format(
         pid, tier, seed, acc.states, acc.transitions, acc.evals, acc.nontrivial, acc.validated, len(new), wall))
     cs = ', '.join('{}={}'.format(k, acc.c[k]) for k in sorted(acc.c))
